@@ -383,13 +383,81 @@ def r6_counter_limit(ctx, configs):
                     r.ok(g['qname'], site, 'limit installed (line %s)' % sorted(vals)[0][1], file=g['file'], line=sorted(vals)[0][1])
 
 
+# what the length of a shared secret must be measured by (the secret is a field element / a residue mod p), and what it must not be
+SECRET_LENGTH = {
+    'ECDH_compute_key': (('EC_GROUP_get_degree',), ('getOrderLength', 'EC_GROUP_get_order', 'EC_GROUP_order_bits', 'BN_num_bytes'), 'the x-coordinate of a point: ceil(field degree / 8) octets (SEC 1 section 3.3.1)'),
+    'derive_key@ECDH': (('get_p_bytes', 'get_p_bits'), ('getOrderLength', 'get_order', 'get_order_bytes'), 'the x-coordinate of a point: the octet length of the field prime'),
+    'DH_compute_key': (('DH_size', 'DH_bits', 'BN_num_bytes'), ('getOrderLength',), 'a residue modulo p: the octet length of the prime'),
+    'derive_key@DH': (('getOutputLength', 'bytes', 'bits', 'getP', 'get_p'), ('getOrderLength', 'get_q'), 'a residue modulo p: the octet length of the prime'),
+}
+
+
+def r10_secret_measure(ctx, configs, rule_id='C10.R10'):
+    """The buffer the shared secret is right-aligned in is measured by the field (ECDH: the secret is an x-coordinate) or the prime (DH) - not by the group order, whose octet
+    length differs on curves such as secp160r1, secp224k1, sect233k1: there the secret lost its last byte or gained a leading zero (F33)."""
+    r = ctx.rule(rule_id, 'the length of a shared secret is the length of a field element (ECDH) / of the prime (DH), never that of the group order', floor=4, engine='E8 value provenance of the size at setKeyBits')
+    for cfg, prog in configs:
+        for q, prim in STRIPPING['ossl' if cfg.startswith('ossl') else 'botan']:
+            f = prog.fn(q)
+            ctx.analysed(f)
+            key = prim if prim != 'derive_key' else 'derive_key@' + ('ECDH' if 'ECDH' in q else 'DH')
+            good, badsrc, why = SECRET_LENGTH[key]
+            helper_arg = {}
+            for c in calls(f['body']):
+                if c.get('callee') and '::' not in c['callee'] and c.get('args'):
+                    for g in prog.fns(c['callee']):
+                        if os.path.basename(g['file']) != os.path.basename(f['file']):
+                            continue
+                        pn = [pp['var']['name'] if pp.get('var') else None for pp in g.get('params', [])]
+                        for k2 in calls(g['body'], short='setKeyBits'):
+                            if k2.get('args') and k2['args'][0].get('k') == 'Var' and k2['args'][0]['name'] in pn:
+                                helper_arg[c['callee']] = pn.index(k2['args'][0]['name'])
+
+            def is_sink(e):
+                return e.get('k') == 'Call' and (short(e.get('callee')) == 'setKeyBits' or e.get('callee') in helper_arg)
+
+            def trig(e, st):
+                return ('setKeyBits', e['l']) if is_sink(e) else None
+            sf = SiteFacts(f, prog, trigger=trig).go()
+            r.paths += sf.paths_returned
+            site = 'length of the secret of %s [%s]' % (prim, cfg)
+            sizes = set()
+            for (_, line), hits in sorted(sf.sites.items()):
+                c = [c for c in calls(f['body']) if is_sink(c) and c['l'] == line][0]
+                arg = canon(c['args'][helper_arg.get(c.get('callee'), 0)])
+                for h in hits:
+                    sizes.add((h['env'].get('size(%s)' % arg), line, h['path']))
+            if not sizes:
+                r.undecided(q, site, 'setKeyBits not reached', file=f['file'], line=f['line'])
+                continue
+            verdict = None
+            for sz, line, path in sorted(sizes, key=lambda x: (str(x[0]), x[1])):
+                names = set(re.findall(r'[A-Za-z_]\w*(?=(?:@\d+)?\()', sz or ''))
+                if sz is None:
+                    verdict = ('undecided', 'the size of the secret at setKeyBits (line %d) is not a value the analysis follows' % line, line, path)
+                elif names & set(badsrc):
+                    verdict = ('violated', 'the secret is measured by %s (size %s): that is the length of the group order, but the secret is %s - on curves where the two differ the derived key is cut or padded and does not match the peer\'s' % ('/'.join(sorted(names & set(badsrc))), sz, why), line, path)
+                    break
+                elif not (names & set(good)):
+                    verdict = verdict or ('undecided', 'the size of the secret (%s) comes from none of the known measures %s' % (sz, '/'.join(good)), line, path)
+            if verdict is None:
+                r.ok(q, site, 'measured by %s' % '/'.join(sorted({n for sz, _, _ in sizes for n in re.findall(r'[A-Za-z_]\w*(?=(?:@\d+)?\()', sz or '') if n in good})), file=f['file'], line=f['line'])
+            elif verdict[0] == 'violated':
+                r.violation(q, site, verdict[1], file=f['file'], line=verdict[2], path=verdict[3])
+            else:
+                r.undecided(q, site, verdict[1], file=f['file'], line=verdict[2])
+
+
 RAW_PUBLIC_SIZES = {32: 'X25519 (RFC 7748)', 56: 'X448 (RFC 7748)', 65: 'P-256 uncompressed point (SEC 1)', 97: 'P-384 uncompressed point', 133: 'P-521 uncompressed point'}
 
+# uncompressed points (1 + 2 * field octets) of the other named curves of the OpenSSL back end
+OTHER_RAW_SIZES = {29: 'secp112r1/r2', 33: 'secp128r1/r2', 41: 'secp160k1/r1/r2, brainpoolP160', 49: 'P-192, brainpoolP192', 57: 'P-224, secp224k1, brainpoolP224', 61: 'prime239v1-3, sect233/239', 81: 'brainpoolP320',
+                   129: 'brainpoolP512', 31: 'sect113', 35: 'sect131', 43: 'sect163', 51: 'sect193', 73: 'sect283', 105: 'sect409', 145: 'sect571'}
 
 def r7_raw_peer_keys(ctx, prog):
     """CKM_ECDH1_DERIVE accepts the peer's public value raw or DER-wrapped and has to guess which.  For the sizes a raw value of a supported curve has, the guess must not depend on
     the key bytes: a raw key that happens to start like a DER OCTET STRING (04 <len>) would otherwise be unwrapped and the derivation fails or yields another secret."""
-    r = ctx.rule('C10.R7', 'a peer public value with the raw size of a supported curve is always taken as raw', floor=5, engine='E2 finite-domain evaluation against the curve size table')
+    r = ctx.rule('C10.R7', 'a peer public value with the raw size of a supported curve is always taken as raw', floor=6, engine='E2 finite-domain evaluation against the curve size table')
     f = prog.fn('SoftHSM::getECDHPubData')
     ctx.analysed(f)
     pn = param_name(f, 0)
@@ -407,6 +475,26 @@ def r7_raw_peer_keys(ctx, prog):
                         file=f['file'], line=bad[0]['line'], path=bad[0]['path'])
         else:
             r.ok(f['qname'], site, '%d paths, all wrap the raw value' % len(o.outcomes), file=f['file'], line=f['line'])
+    # the other named curves the OpenSSL back end accepts (C_GetMechanismInfo advertises 112..521 bits for CKM_ECDH1_DERIVE): one instance for all of them
+    amb, line0, path0 = [], f['line'], None
+    for ln, what in sorted(OTHER_RAW_SIZES.items()):
+        o = Outcomes(f, prog, cenv={'size(%s)' % pn: ln}, record_calls={'raw2Octet'})
+        o.CAP = 64
+        o.go()
+        r.paths += len(o.outcomes)
+        bad = [oc for oc in o.outcomes if not any(e[0] == 'call' and e[1] == 'raw2Octet' for e in oc['events'])]
+        if not o.outcomes:
+            r.undecided(f['qname'], 'raw points of the other named curves', 'no path for %d bytes' % ln, file=f['file'], line=f['line'])
+            return
+        if bad:
+            amb.append('%d (%s)' % (ln, what))
+            line0, path0 = bad[0]['line'], path0 or bad[0]['path']
+    site = 'raw points of the other named curves'
+    if amb:
+        r.violation(f['qname'], site, 'raw public values of these sizes are classified by their first bytes: %s - a raw point whose X coordinate starts with the byte (size - 2) is taken for a DER OCTET STRING and the derivation fails (about one peer key in 256)' % ', '.join(amb),
+                    file=f['file'], line=line0, path=path0)
+    else:
+        r.ok(f['qname'], site, '%d sizes, all taken as raw whatever their content' % len(OTHER_RAW_SIZES), file=f['file'], line=f['line'])
 
 
 def run(ctx):
@@ -425,9 +513,14 @@ def run(ctx):
     c13.r10_complete_fill(ctx, ossl, rule_id='C10.R8')
     from rules import c20
     c20.r10_round_up(ctx, configs, rule_id='C10.R9')
+    r10_secret_measure(ctx, configs)
 
 
 MUTANTS = [
+    dict(name='ecdh-secret-measured-by-the-order', rule='C10.R10', file='src/lib/crypto/OSSLECDH.cpp', after='bool OSSLECDH::deriveKey(',
+         old='\tint size = (EC_GROUP_get_degree(EC_KEY_get0_group(priv)) + 7) / 8;', new='\tint size = ((OSSLECPublicKey *)publicKey)->getOrderLength();'),
+    dict(name='botan-ecdh-secret-measured-by-the-order', rule='C10.R10', config='botan-file', file='src/lib/crypto/BotanECDH.cpp', after='bool BotanECDH::deriveKey(',
+         old='\tint size = priv->domain().get_p_bytes();', new='\tint size = priv->domain().get_order_bytes();'),
     dict(name='botan-ctr-limit-only-narrow-counters', rule='C10.R6', config='botan-file', file='src/lib/crypto/BotanSymmetricAlgorithm.cpp', after='bool BotanSymmetricAlgorithm::decryptInit(',
          old='\tif (counterBits > 0)\n', new='\tif (counterBits > 0 && counterBits <= 64)\n'),
     dict(name='gcm-tag-only-shortcut', rule='C10.R1', file='src/lib/crypto/OSSLEVPSymmetricAlgorithm.cpp', after='bool OSSLEVPSymmetricAlgorithm::decryptFinal(',
